@@ -586,11 +586,11 @@ Proof.
   intros Ht. destruct e as [i k own data kids]. intros Hok. cbn [f_bind_data]. unfold at_tag.
   rewrite has_id_abs, ikind_abs_tag. cbn [cid ckind_of].
   destruct (N.eqb i p && is_ktag k)%bool eqn:E; [|reflexivity].
-  intros [Hclean _]. cbn [snd] in Hclean. split; [exact I|]. rewrite !abs_el_eq. cbn [iid ipayload ikids].
+  intros _. split; [exact I|]. rewrite !abs_el_eq. cbn [iid ipayload ikids].
   apply andb_true_iff in E as [_ Etag]. rewrite el_ok_eq in Hok. apply andb3 in Hok as (Hd & Hks & Hkids).
   split; [|split; [|reflexivity]].
-  - unfold akids. destruct (chain_texts data); [|discriminate]. reflexivity.
-  - rewrite el_ok_eq. unfold kind_shape. rewrite Etag, Hkids. rewrite chain_ok_of. cbn [forallb]. rewrite Ht. reflexivity.
+  - unfold akids. rewrite chain_texts_of. reflexivity.
+  - rewrite el_ok_eq. unfold kind_shape. rewrite Etag, Hkids. rewrite chain_ok_of. cbn [forallb]. rewrite Ht, (chain_ok_texts _ Hd). reflexivity.
 Qed.
 
 Lemma append_el_local p c inh e : el_ok c = true -> el_ok e = true ->
